@@ -176,9 +176,9 @@ def _body_paths(check):
             elif o.status == "undecided":
                 o.rule = "STN-MIRROR"
                 kept.append(o)
+        check.obs[n0:] = kept
         if not kept:
             check.ok("STN-MIRROR", c.qualname, "the implicit system pairs each unknown with the time step and Jacobian row of its own cell (interleaved layout throughout)", c.loc())
-        check.obs[n0:] = kept + check.obs[len(check.obs):]
     # ---- sources of the nozzle model: each equation gets ITS OWN geometric source (mass / momentum / energy have
     # different parities under reflection and different dimensions): same obligations as C19 NOZ-COMPOSE
     from . import c19
